@@ -14,7 +14,7 @@ let st (b : buffer) =
     (match b.b_mode with Calloc -> "c" | Mmap -> "m") (if is_empty b then "t" else "f")
 
 let cmp_of = function
-  | "lex" -> lex_lt | "len" -> len_lt | "first" -> first_lt
+  | "lex" -> lex_lt | "rlex" -> rlex_lt | "len" -> len_lt | "first" -> first_lt
   | "true" -> always_true | "false" -> always_false | "cyc" -> cyclic_lt
   | _ -> failwith "cmp"
 
